@@ -8,13 +8,12 @@ import (
 	"os"
 	"time"
 
-	"verif/harness/c18"
 	"verif/harness/hx"
 )
 
-var registry = map[string]func(r *hx.Run, replay []hx.Case){
-	"C18": c18.Run,
-}
+// property packages register themselves in init() (hx.Register); one import file per
+// property (imports_cXX.go) pulls the package in.
+var registry = hx.Registry
 
 func main() {
 	if len(os.Args) < 3 || os.Args[1] != "run" {
